@@ -25,6 +25,12 @@ class I3(I1, I2):
     pass
 
 
+# interfaces with interface methods (they get a class of their own), built by
+# a helper in another module and published here
+import zi_fix13b
+IM, IMA, IMP = zi_fix13b.build(__name__)
+
+
 class Plain:
     pass
 
@@ -240,11 +246,33 @@ def factory2():
 
 classImplements(factory2, I0)    # ... and a later declaration on it
 
-CLASSES = (Plain, A, B, C, D, E, F, G, H, J, K, L, M, N, O, P, Q, R, S, T, U, V, W, X, OS, OS2)
+class YB:
+    pass
+
+
+class Y(YB):
+    pass
+
+
+class Y2(YB):
+    pass
+
+
+# instances that had their declarations before their class (or its base) was
+# declared anything
+EARLY_Y = Y()
+directlyProvides(EARLY_Y, I2)
+EARLY_Y2 = Y2()
+directlyProvides(EARLY_Y2, I1, I2)
+classImplements(YB, I0)           # late, on the base
+classImplements(Y2, I2)           # late, on the class itself (makes I2 redundant after the fact)
+EARLY = (('A', 'EARLY_A'), ('A', 'EARLY_A2'), ('Y', 'EARLY_Y'), ('Y2', 'EARLY_Y2'))
+
+CLASSES = (Plain, A, B, C, D, E, F, G, H, J, K, L, M, N, O, P, Q, R, S, T, U, V, W, X, OS, OS2, YB, Y, Y2)
 FACTORIES = (factory, factory2)
 EXPECTED_DECLARED = {'OS': ['I2'], 'OS2': ['I1', 'I2', 'I3'], 'factory': ['I1'], 'factory2': ['I0', 'I2']}
 BUILTINS = (list, dict, int, tuple)       # their specifications live in a registry, not on the type
-IFACES = (I0, I1, I2, I3)
+IFACES = (I0, I1, I2, I3, IM, IMA, IMP)
 
 INSTANCE_SHAPES = ('plain', 'dp_I2', 'dp_I1I2', 'ap_I0', 'dp_then_nlp', 'dp_I3', 'dp_empty',
                    'dp_nested', 'ap_twice')
